@@ -13,12 +13,14 @@ Definition cv_default : compvec := {| cv_chunks := bv_empty; cv_len := 0; cv_wid
 
 Definition width_ok (w : N) : bool := (1 <=? w) && (w <=? 64).
 
-(* new / with_capacity: None = Err.  with_capacity also computes capa * width. *)
+(* new / with_capacity: None = Err.  with_capacity also computes capa * width and, inside
+   BitVector::with_capacity, words_for(capa * width). *)
 Definition cv_new (width : N) : option compvec :=
   if width_ok width then Some {| cv_chunks := bv_empty; cv_len := 0; cv_width := width |} else None.
 Definition cv_with_capacity (c : cfg) (capa width : N) : res (option compvec) :=
   if width_ok width then
-    (_ <- mul c capa width ;; Ok (Some {| cv_chunks := bv_empty; cv_len := 0; cv_width := width |}))
+    (n <- mul c capa width ;; _ <- words_for c n ;;
+     Ok (Some {| cv_chunks := bv_empty; cv_len := 0; cv_width := width |}))
   else Ok None.
 
 Definition fits (c : cfg) (width val : N) : res bool :=
